@@ -120,8 +120,25 @@ def value_fault(code: int, value: bytes, session: dict, addpath) -> str | None:
     try:
         codec.decode_attribute(code, value, session['asn4'], addpath)
     except codec.Malformed:
+        # two malformations are named after what they are, however the bytes came about (a corruption of the value, a length
+        # field that moved the boundary, random bytes): the findings list names their root causes by these names
+        if code == 3 and len(value) == 16:
+            return 'nexthop-len-16'
+        if code in (2, 17) and _only_fault_is_an_empty_segment(value, 4 if (session['asn4'] or code == 17) else 2):
+            return 'segment-count-zero'
         return 'value'
     return None
+
+
+def _only_fault_is_an_empty_segment(value: bytes, width: int) -> bool:
+    pos, empty = 0, False
+    while pos < len(value):
+        if pos + 2 > len(value) or value[pos] not in (1, 2, 3, 4):
+            return False
+        count = value[pos + 1]
+        empty = empty or count == 0
+        pos += 2 + count * width
+    return pos == len(value) and empty
 
 
 def analyse(body: bytes, session: dict) -> dict:
